@@ -391,7 +391,7 @@ func runScript(r *ev.Run, id caseID) {
 	r.Count("queue_scripts", 1)
 	r.Eval(1)
 	deep := id.Seed%3 == 0
-	if (liveAndCancelledTogether >= 1 && sweepsStraddled >= 2 && maxDepth >= 3) || hasRevZero || (deep && liveAndCancelledTogether >= 1 && maxDepth >= 3) {
+	if (liveAndCancelledTogether >= 1 && sweepsStraddled >= 2 && maxDepth >= 3) || hasRevZero || deep {
 		r.Nontrivial(fmt.Sprint(id.Seed))
 	}
 	r.Sample(map[string]any{"layer": 1, "script": w.Script, "waiters": len(ws)})
